@@ -248,6 +248,12 @@ func (r *run) do(a Action, where string, from *comp) (delivered bool) {
 		// (fireRound marks that case); one issued while the collector is starting or reloading merely has to
 		// be safe — the statement does not promise that it wins.
 		r.stopIssued.Store(true)
+		if inCallback && where == "in-start" {
+			// ... with one exception that is unambiguous: while a component's Start runs, the collector is in Starting
+			// (first start and reload alike), and a Shutdown() in Starting is accepted — whatever happens to the rest
+			// of the start-up, Run has to return
+			r.mustReturn.Store(true)
+		}
 		if inCallback || n == 1 {
 			for i := 0; i < n; i++ {
 				r.callShutdown(where)
